@@ -89,6 +89,8 @@ def roundtrip(T, values):
             p._add_form(sec)
     except Exception as e:
         return ('unreadable', f'{type(e).__name__}: {e}')
+    if set(p._values.values) != set(f'tt.{n}' for n in values):
+        return ('extra-lines', f'read-back holds {sorted(p._values.values)} for a solution with lines {sorted(values)}')
     return ('ok', {k.split('.', 1)[1]: v for k, v in p._values.values.items()})
 
 
@@ -217,6 +219,11 @@ def _cli_work(arg):
                     'float' if isinstance(fld, hf.FloatField) else 'x'
                 if not same(kind, v, w):
                     errs.append(('value-differs', f'{line}: solved {v!r}, read back {w!r}'))
+            extra = set(loaded) - set(typed)
+            if extra:
+                errs.append(('line-invented', f'read-back holds lines the solution does not have: {sorted(extra)[:4]}'))
+            if sorted(f.name() for f in p.forms) != sorted(r.solution):
+                errs.append(('forms-differ', f'filler loaded forms {sorted(f.name() for f in p.forms)[:6]}.. for a solution with sections {sorted(r.solution)[:6]}..'))
             for form in p.forms:
                 if form._tax_year != year:
                     errs.append(('wrong-year-forms', f'form {form.name()} of tax year {form._tax_year} used for a {year} solution'))
